@@ -44,7 +44,7 @@ def entry (count : Nat) (off : Nat) : P Unit := do
 
 def reader : P Unit := do
   let h ← header
-  P.forEach h.2 (entry h.1)
+  P.each h.2 (entry h.1)
 
 def fromExisting (b : Bytes) : Res Unit := P.run reader b
 
@@ -54,7 +54,7 @@ def entryUnfixed (count : Nat) (off : Nat) : P Unit := do
   -- `entry_offset as i32 * 2 + 8 + 4 * header.entry_count` in i32 (debug build: overflow panics)
   let o ← P.lift (addC 2147483647 (off * 2 + 8) (4 * count))
   P.seekStart o
-  P.forEach [0, 1, 2, 3, 4] (fun (_ : Nat) => fun w s =>
+  P.each [0, 1, 2, 3, 4] (fun (_ : Nat) => fun w s =>
     match P.u16le w s with
     | ⟨.ok (v, s'), k⟩ => if v.toNat * 2 ≤ 65535 then ⟨.ok ((), s'), k⟩ else ⟨.fault .overflow, k⟩
     | ⟨.fail _, k⟩ => ⟨.fault .unwrap, k⟩
@@ -62,7 +62,7 @@ def entryUnfixed (count : Nat) (off : Nat) : P Unit := do
 
 def fromExistingUnfixed (b : Bytes) : Res Unit :=
   match P.run header b with
-  | ⟨.ok h, _⟩ => P.run (do let _ ← header; P.forEach h.2 (entryUnfixed h.1)) b
+  | ⟨.ok h, _⟩ => P.run (do let _ ← header; P.each h.2 (entryUnfixed h.1)) b
   | ⟨.fail _, k⟩ => ⟨.fault .unwrap, k⟩
   | ⟨.fault x, k⟩ => ⟨.fault x, k⟩
 
